@@ -186,7 +186,11 @@ func Compare(d *Dict, op Op, out Outcome, httpMode bool) []string {
 		add("call wrote %d audit record(s) %+v, specification says %d %+v", len(out.Audit), out.Audit, len(op.Audit), op.Audit)
 	} else {
 		for i := range op.Audit {
-			if out.Audit[i] != op.Audit[i] {
+			want, got := op.Audit[i], out.Audit[i]
+			if want.Action == "get" && want.Ver == 0 && want.Authorized {
+				got.Ver = 0 // no version was given by the caller: recording 0 or the version disclosed are both fine
+			}
+			if got != want {
 				add("audit record %+v, specification says %+v", out.Audit[i], op.Audit[i])
 			}
 		}
